@@ -44,7 +44,8 @@ ZWellFormed(zb) == /\ \A j, k \in 1..6 : j # k => zb.pieces[j] \cap zb.pieces[k]
                    /\ zb.colors[0] \cap zb.colors[1] = {}
                    /\ UNION {zb.pieces[k] : k \in 1..6} = ZOcc(zb)
 \* refinement mapping to the abstract position (clocks are kept beside the ZobristBoard)
-AbsB(zb) == [s \in Sq |-> IF ZColorOn(zb, s) = 2 THEN 0 ELSE Mk(ZColorOn(zb, s), ZPieceOn(zb, s))]
+\* (TLCEval: the function is computed once instead of being re-evaluated lazily at every application)
+AbsB(zb) == TLCEval([s \in Sq |-> IF ZColorOn(zb, s) = 2 THEN 0 ELSE Mk(ZColorOn(zb, s), ZPieceOn(zb, s))])
 AbsPos(zb, hmc, fmn) == [b |-> AbsB(zb), stm |-> zb.stm, cr |-> zb.cr, ep |-> zb.ep, hmc |-> hmc, fmn |-> fmn]
 \* a board built the way the constructors do it: xor_square per piece, then side, rights, ep
 RECURSIVE ZbPlace(_,_,_)
